@@ -136,6 +136,44 @@ fn run_history(acts: &[Act], src_len: usize, check_from: usize) -> Result<(Ref, 
     Ok((r, pend, b))
 }
 
+/// soak probe: a long deterministic history with up to `max_live` live outputs; the next action is
+/// chosen by a fixed rule from the step number and the reference state (never random)
+fn soak_history(steps: usize, max_live: usize) -> Vec<Act> {
+    let mut r = Ref::default();
+    let mut acts = Vec::with_capacity(steps);
+    for t in 0..steps {
+        let live: Vec<usize> = r.outs.iter().enumerate().filter(|(_, o)| o.is_some()).map(|(i, _)| i).collect();
+        let a = if live.is_empty() || (t % 13 == 0 && live.len() < max_live && r.outs.len() < 250) {
+            Act::Send
+        } else if t % 29 == 28 && live.len() > 1 {
+            Act::Drop(live[(t / 29) % live.len()] as u8)
+        } else {
+            // pull bursts: the same output for a few steps, bounded lag
+            let i = live[(t / 5) % live.len()];
+            let (at, rc) = r.outs[i].unwrap();
+            let lagmax = live.iter().map(|&j| r.pulled - (r.outs[j].unwrap().0 + r.outs[j].unwrap().1)).max().unwrap_or(0);
+            if at + rc == r.pulled && lagmax >= 9 {
+                // let the slowest catch up instead of growing the backlog further
+                let slow = *live.iter().max_by_key(|&&j| r.pulled - (r.outs[j].unwrap().0 + r.outs[j].unwrap().1)).unwrap();
+                Act::Next(slow as u8)
+            } else {
+                Act::Next(i as u8)
+            }
+        };
+        match a {
+            Act::Send => r.outs.push(Some((r.pulled, 0))),
+            Act::Next(i) => {
+                let (at, rc) = r.outs[i as usize].unwrap();
+                r.outs[i as usize] = Some((at, rc + 1));
+                r.pulled = r.pulled.max(at + rc + 1);
+            }
+            Act::Drop(i) => r.outs[i as usize] = None,
+        }
+        acts.push(a);
+    }
+    acts
+}
+
 fn case_json(acts: &[Act], src_len: usize) -> Value {
     json!({"sys":"bus","src_len":src_len,"actions":acts.iter().map(|a| a.name()).collect::<Vec<_>>()})
 }
@@ -250,6 +288,10 @@ fn main() {
     let ctx: &'static Ctx = Ctx::leak("C13", "release");
     if let Some(v) = ctx.replay_case() {
         guard::enter(&v.to_string());
+        if v["sys"] == "bus_soak" {
+            let acts = soak_history(v["steps"].as_u64().unwrap_or(1000) as usize, v["max_live"].as_u64().unwrap_or(3) as usize);
+            ctx.finish_replay(catch(|| run_history(&acts, acts.len() + 10, 0)).unwrap_or_else(|p| Err(("panic".into(), p))).err().map(|e| e.1.chars().rev().take(400).collect::<String>().chars().rev().collect()));
+        }
         let acts: Vec<Act> = v["actions"].as_array().map(|a| a.iter().filter_map(|x| Act::parse(x.as_str()?)).collect()).unwrap_or_default();
         let r = catch(|| run_history(&acts, v["src_len"].as_u64().unwrap_or(1000) as usize, 0));
         ctx.finish_replay(match r {
@@ -316,6 +358,18 @@ fn main() {
     ctx.set("unmerged_steps_executed", json!(steps));
     ctx.set("unmerged_depth", json!(depth));
 
+    // soak probes
+    let soak_steps = ctx.tier.pick(20_000, 200_000);
+    for max_live in [1usize, 2, 3, 6] {
+        guard::enter(&json!({"sys":"bus_soak","max_live":max_live,"steps":soak_steps}).to_string());
+        let acts = soak_history(soak_steps, max_live);
+        ctx.add_evals(soak_steps as u64);
+        if let Err((k, m)) = run_history(&acts, acts.len() + 10, 0) {
+            let short: String = m.chars().rev().take(400).collect::<String>().chars().rev().collect();
+            ctx.violation(&k, json!({"sys":"bus_soak","max_live":max_live,"steps":soak_steps}), format!("soak history of {soak_steps} steps with up to {max_live} live outputs: ...{short}"), None);
+        }
+    }
+    ctx.rule(&format!("soak probes: one deterministic history of {soak_steps} steps (sends, pull bursts, drops chosen by a fixed rule from the step number and the reference state) with up to 1, 2, 3 and 6 live outputs on a single bus, same checks after every step (single executions, labelled)"));
     let c = BusModel { ctx }.checker().threads(1).spawn_bfs().join();
     ctx.set("merged_unique_states", json!(c.unique_state_count()));
     ctx.set("merged_max_depth", json!(c.max_depth()));
